@@ -404,7 +404,29 @@ class _RpcProxy:
                     object.__setattr__(transport, "_stream_opened", True)
                 header = None
                 if info.header_type is not None:
-                    header = _read_stream_header(transport.reader, info.header_type, ipc_validation, on_log, ext_cfg)
+                    try:
+                        header = _read_stream_header(
+                            transport.reader, info.header_type, ipc_validation, on_log, ext_cfg
+                        )
+                    except (RpcError, *_TRANSPORT_ERRORS):
+                        raise
+                    except Exception:
+                        # The failure is on this side (the on_log callback
+                        # raised, or the header did not deserialize): the
+                        # server has entered the stream and is waiting for
+                        # input, and the caller gets no session to close.
+                        # Close the stream here so the next call starts at a
+                        # message boundary.
+                        with contextlib.suppress(Exception):
+                            StreamSession(
+                                transport.writer,
+                                transport.reader,
+                                None,
+                                external_config=ext_cfg,
+                                ipc_validation=ipc_validation,
+                                shm=shm,
+                            ).close()
+                        raise
                 session = StreamSession(
                     transport.writer,
                     transport.reader,
